@@ -445,6 +445,15 @@ func (w *fxWorld) genOp(m *fxModel, nIdx int) fxOp {
 // diverged, anything reported after that would only be a follow-up symptom.
 func (w *fxWorld) chk(ok bool, class, sig, format string, a ...interface{}) {
 	w.r.OracleEvals++
+	if !ok {
+		// every mismatch on an index on which a known-hazard operation was executed is a
+		// consequence of that one defect (its dangling timer can fire on any later version): one
+		// stable signature per hazard, whatever lookup notices it first
+		if i := strings.LastIndex(sig, "+"); i >= 0 {
+			format = "[" + class + "/" + sig[:i] + "] " + format
+			class, sig = "hazard-consequence", sig[i+1:]
+		}
+	}
 	if !ok && w.r.Fail(class, sig, format, a...) {
 		w.r.Abort()
 	}
@@ -864,7 +873,13 @@ func (w *fxWorld) guard(fn func()) {
 		if len(lines) > 50 {
 			lines = lines[:50]
 		}
-		if w.r.Fail("panic", w.curKind+":"+fxFrames(st)+w.hazards(), "legal use panicked during %s: %v\n%s", w.curKind, p, strings.Join(lines, "\n")) {
+		pclass, psig := "panic", w.curKind+":"+fxFrames(st)
+		if hz := w.hazards(); hz != "" {
+			// a known-hazard operation was executed in this run: its dangling timer explains
+			// later panics as well
+			pclass, psig = "hazard-consequence", strings.TrimPrefix(hz, "+")
+		}
+		if w.r.Fail(pclass, psig, "legal use panicked during %s (%s): %v\n%s", w.curKind, fxFrames(st), p, strings.Join(lines, "\n")) {
 			w.r.Abort()
 		}
 	}()
